@@ -37,27 +37,47 @@ except BaseException:
             return False
 
 
-def _repr_evaluates_back(value):
+def _repr_evaluates_back(value, _seen=None):
     """
     Whether ``repr(value)`` is an expression that evaluates back to an equal
     value in any namespace: the builtin scalars (but not ``inf`` and ``nan``,
     whose repr is a bare name) and the builtin containers of them. Instances
     of other classes - the student's own, ``Decimal``, a ``namedtuple``,
-    functions - have to be handed over as objects instead.
+    functions - have to be handed over as objects instead, and so does a
+    structure that holds the same mutable object twice (or itself), which its
+    repr would turn into separate copies.
     """
     kind = type(value)
     if kind is float:
         return value == value and value not in (float('inf'), float('-inf'))
     if kind is complex:
         return _repr_evaluates_back(value.real) and _repr_evaluates_back(value.imag)
-    if kind in (bool, int, str, bytes, bytearray, range, type(None), type(Ellipsis)):
+    if kind in (bool, int, str, bytes, range, type(None), type(Ellipsis)):
         return True
-    if kind in (list, tuple, set, frozenset):
-        return all(_repr_evaluates_back(item) for item in value)
+    if kind not in (list, tuple, set, frozenset, dict, bytearray):
+        return False
+    if _seen is None:
+        _seen = set()
+    if kind in (list, set, dict, bytearray):
+        if id(value) in _seen:
+            return False
+        _seen.add(id(value))
+    if kind is bytearray:
+        return True
     if kind is dict:
-        return all(_repr_evaluates_back(item)
+        return all(_repr_evaluates_back(item, _seen)
                    for pair in value.items() for item in pair)
-    return False
+    return all(_repr_evaluates_back(item, _seen) for item in value)
+
+
+def _short_repr(value, limit):
+    """ The repr of the value if it is at most ``limit`` characters long, else
+    None (also when it has no repr: an int too long to be turned into text). """
+    try:
+        text = repr(value)
+    except ValueError:
+        return None
+    return text if len(text) <= limit else None
 
 
 class Sandbox:
@@ -840,14 +860,17 @@ class Sandbox:
         if isinstance(value, SandboxVariable):
             return value.name
         actual_value = unwrap_value(value)
-        if (not shared and _repr_evaluates_back(actual_value)
-                and len(repr(actual_value)) <= self.MAXIMUM_TEMPORARY_LENGTH):
-            return repr(actual_value)
+        if not shared and _repr_evaluates_back(actual_value):
+            short_repr = _short_repr(actual_value, self.MAXIMUM_TEMPORARY_LENGTH)
+            if short_repr is not None:
+                return short_repr
         key = '_temporary_{}_{}'.format(category, name)
         if key in self.data:
             self._backup_variables[key] = self.data[key]
         self._temporary_variables.add(key)
-        self.data[key] = value
+        # The student's function gets the value itself, also when the argument
+        # is the (proxied) result of an earlier call
+        self.data[key] = actual_value
         return key
 
     def make_safe_variable(self, name):
